@@ -66,6 +66,10 @@ func checkC08(c *Check) {
 	ruleOrderingGoroutineLatch(c, p, "R08.10")
 	ruleContentHashDiscipline(c, p, "R08.11")
 	ruleContentHashFeed(c, p, "R08.12")
+	ruleCloseWAlwaysCloses(c, p, "R08.15")
+	c.RuleDoc["R08.15"] = "Frame.CloseW performs the pipeline shutdown on every path"
+	ruleNoDoubleRelease(c, p, "R08.16")
+	c.RuleDoc["R08.16"] = "a field-held pool buffer is released once: the field is overwritten after Put"
 	ruleConcurrencyAtLeastOne(c, p, "R08.14")
 	c.RuleDoc["R08.14"] = "the stored concurrency is at least 1"
 	c.RuleDoc["R08.13"] = "a caller's buffer is compressed in place only in sequential mode (= R02.7): the pipeline goroutines never read a slice the caller may reuse after Write returns"
@@ -97,6 +101,8 @@ func checkC09(c *Check) {
 	ruleResetRearms(c, p, "R09.10")
 	ruleContentHashDiscipline(c, p, "R09.11")
 	ruleContentSizeWriters(c, p, "R09.12")
+	c.RuleDoc["R09.18"] = "the running length of the content hash is 64 bits wide and used unconverted (= R13.1/R13.2): the content checksum of a frame of 4 GiB or more is the XXH32 of its content"
+	c.as("R09.18", func() { ruleXXHLength(c, p) })
 	ruleSizeOptionArms(c, p, "R09.15")
 	c.RuleDoc["R09.15"] = "SizeOption sets flag and size unconditionally for every object kind (the header announces the configured size, 0 = none)"
 	rulePendingConsumedOnce(c, p, "R09.16")
